@@ -275,7 +275,7 @@ func c08Shared(seed int64, k, maxpend, reps int) core.Result {
 		res.Inconclusive = "c08: fid setup failed"
 		return res
 	}
-	for rep := 0; rep < reps*(k+1) && len(res.Violations) < 3; rep++ {
+	for rep := 0; rep < reps*(k+1) && len(res.Violations) == 0; rep++ { // (a connection that lost a reply does not settle: stop at the first violation)
 		holdAt := rep % (k + 1) // member held in the implementation (k = none)
 		if rep >= k+1 && r.Intn(3) == 0 {
 			s.Ctl.Random(uint64(seed)+uint64(rep), 250, 150)
@@ -323,6 +323,8 @@ func c08Shared(seed int64, k, maxpend, reps int) core.Result {
 			for _, m := range single {
 				if rp, err := c.WaitTag(m.Tag, W); err != nil || rp.Msg == nil {
 					res.Violate("C08;head-of-line;shared-tag-blocks-others", "a request with another tag was not answered while a member of a shared-tag group was held", det)
+					c.Hangup()
+					return res
 				}
 			}
 			time.Sleep(2 * time.Millisecond)
@@ -343,7 +345,8 @@ func c08Shared(seed int64, k, maxpend, reps int) core.Result {
 			rp, err := c.WaitTag(tag, W)
 			if err != nil || rp.Msg == nil {
 				res.Violate("C08;shared-tag-reply-missing", fmt.Sprintf("only %d of %d replies for a shared-tag group", len(got), k), det)
-				break
+				c.Hangup()
+				return res
 			}
 			got = append(got, rp)
 		}
